@@ -162,7 +162,7 @@ Sim(mu, sig) ==
         ELSE IF mu.prop = "unique_together"
              THEN Ok([sig EXCEPT ![mu.m].ut = mu.val, ![mu.m].uta = TRUE])
         ELSE IF mu.prop = "indexes"
-             THEN Ok([sig EXCEPT ![mu.m].idx = mu.val])
+             THEN Ok([sig EXCEPT ![mu.m].idx = mu.ival])
         ELSE Fail(sig)
     [] mu.k = "RenM" ->
         IF mu.om \notin DOMAIN sig THEN Fail(sig)
